@@ -10,9 +10,9 @@ import (
 )
 
 const (
-	soloStepCap      = 6_000_000
-	opStepLimit      = 3_000_000  // no corpus or grammar input needs more than ~150 000 steps alone
-	giantOpStepLimit = 40_000_000 // giant inputs need up to ~3 000 000
+	soloStepCap      = 20_000_000
+	opStepLimit      = 10_000_000  // no corpus or grammar input needs more than ~150 000 steps alone on the pinned tree
+	giantOpStepLimit = 100_000_000 // giant runs: a cap only, never judged (a slower but correct library is not a livelock)
 	resNotRun        = ""
 	resSkipUnpub     = "skip:unpublished"
 )
@@ -147,6 +147,9 @@ func (w *world) simOp(t, i int) {
 		} else if !completed {
 			res = "exit"
 		}
+		if began && zsimrt.AbortRaised() && !strings.HasPrefix(res, "abort:") {
+			res = "abort:raised inside the operation and swallowed on the way up (fmt recovers panics of String methods)"
+		}
 		if began {
 			w.steps[t][i] = zsimrt.OpSteps()
 		}
@@ -254,6 +257,9 @@ func (w *world) soloOp(t, i int) (res string, steps uint64) {
 				}
 			} else if !completed {
 				res = "exit"
+			}
+			if zsimrt.AbortRaised() && !strings.HasPrefix(res, "abort:") {
+				res = "abort:solo step cap (swallowed on the way up)"
 			}
 			fstate[soloSlot] = faultState{}
 		}()
@@ -430,6 +436,9 @@ func runScenario(sc *Scenario, r *zsimrt.Rand, replay []zsimrt.Decision) *Outcom
 				// solo run a cheap hit and the simulated run a full computation, so a
 				// relative bound raised a false alarm on a correct memoising change.)
 				w.limits[t][i] = opStepLimit
+				if 200*s > w.limits[t][i] {
+					w.limits[t][i] = 200 * s
+				}
 				if sc.Giant {
 					w.limits[t][i] = giantOpStepLimit
 				}
@@ -448,10 +457,10 @@ func runScenario(sc *Scenario, r *zsimrt.Rand, replay []zsimrt.Decision) *Outcom
 			SyncQ:     sc.Sched.SyncQ,
 			ClockPerm: sc.Sched.ClockPermil,
 			HookEvery: sc.O2Every,
-			StepCap:   30_000_000,
+			StepCap:   100_000_000,
 		}
 		if sc.Giant {
-			cfg.StepCap = 150_000_000
+			cfg.StepCap = 400_000_000
 		}
 		if cfg.Policy == zsimrt.PolSingle {
 			var aSteps uint64
@@ -569,7 +578,8 @@ func runScenario(sc *Scenario, r *zsimrt.Rand, replay []zsimrt.Decision) *Outcom
 				continue
 			}
 			if len(got) >= 6 && got[:6] == "abort:" {
-				fair := (sc.Sched.Policy == "uniform" || sc.Sched.Policy == "rr" || sc.Sched.Policy == "targeted") && sc.Sched.StallPermil == 0
+				fair := (sc.Sched.Policy == "uniform" || sc.Sched.Policy == "rr" || sc.Sched.Policy == "targeted") && sc.Sched.StallPermil == 0 &&
+					!sc.Giant && !strings.HasPrefix(refA[f], "abort:")
 				if out.Stats.Overrun && out.Stats.OverrunTask == t && !fair {
 					// under an unfair policy (PCT, single preemption) or an injected stall a legitimate
 					// spin-wait inside the library could exceed any bound: recorded, not judged
@@ -594,6 +604,9 @@ func runScenario(sc *Scenario, r *zsimrt.Rand, replay []zsimrt.Decision) *Outcom
 		}
 	}
 	for f := 0; f < total; f++ {
+		if strings.HasPrefix(refA[f], "abort:") || strings.HasPrefix(refB[f], "abort:") {
+			continue // one of the solo runs did not finish within the solo step cap: nothing to compare
+		}
 		if refA[f] != refB[f] {
 			t, i := taskOf[f], opOf[f]
 			keep(&Violation{Oracle: "O5", Task: t, Op: i, Kind: sc.Tasks[t][i].Kind,
